@@ -111,6 +111,53 @@ func C15(p *ir.Program, r *report.R) {
 		up := p.Func("mempool", "Mempool.Update")
 		c.Order(memT+"Update", up, "mempool.Mempool.filterTxs", "mempool.Mempool.recheckTxs", "mempool.Mempool.promoteExecutables")
 		mempoolRecheckRules(c)
+		// what Reap offers is a PREFIX of the list: no element is skipped (a later transaction of the
+		// same sender would be offered without its predecessor); quotas stop the collection
+		{
+			ct := p.Func("mempool", "Mempool.collectTxs")
+			isTake := func(in ssa.Instruction) bool {
+				call, ok := in.(*ssa.Call)
+				if !ok {
+					return false
+				}
+				bi, ok := call.Call.Value.(*ssa.Builtin)
+				return ok && bi.Name() == "append" && len(call.Call.Args) == 2 && strings.Contains(ir.Render(call.Call.Args[1]), ".tx")
+			}
+			isNext := ir.CallMatcher("clist.CElement.Next")
+			n := 0
+			for _, l := range ir.Loops(ct) {
+				n++
+				found, hit, tr := ir.FindPath(ir.PathQuery{From: ir.Point{B: l.Header, I: -1}, Target: isNext, Avoid: isTake})
+				d := "every iteration that moves on to the next element has taken the current one"
+				if found {
+					d += fmt.Sprintf(" — but %s is reached without taking the element, blocks %v", p.InstrPos(hit), tr)
+				}
+				r.Check("K2", memT+"collectTxs/prefix-no-skip", p.Pos(ct.Pos()), !found, d)
+			}
+			c.MustFind("K2", memT+"collectTxs/prefix-no-skip", ct, n, "collection loop")
+		}
+		// the speculative check state never leaves the application except as a copy
+		{
+			var bad []string
+			nRet := 0
+			for _, f := range p.Funcs {
+				if f.Pkg == nil || ir.RelPkg(f.Pkg.Pkg) != "app" || f.Blocks == nil || strings.HasSuffix(p.Pos(f.Pos()), "_test.go") {
+					continue
+				}
+				for _, rt := range ir.Returns(f) {
+					for _, v := range rt.Results {
+						if v.Type().String() != "*github.com/lianxiangcloud/linkchain/state.StateDB" {
+							continue
+						}
+						nRet++
+						if rv := ir.Render(v); rv == "app.checkTxState" || strings.HasSuffix(rv, ".checkTxState") {
+							bad = append(bad, ir.FuncName(f)+" returns "+rv)
+						}
+					}
+				}
+			}
+			r.Check("K3", "check-state/handed-out-only-as-copy", "-", len(bad) == 0 && nRet >= 2, fmt.Sprintf("%d StateDB-returning functions of package app inspected; the live check state is returned by: %v", nRet, bad))
+		}
 		for _, g := range []string{"mempool.Mempool.recheckSpecTxs", "mempool.Mempool.recheckUtxoTxs"} {
 			a, b, cc := firstCall(up, "mempool.Mempool.filterTxs"), firstCall(up, g), firstCall(up, "mempool.Mempool.promoteExecutables")
 			r.Check("K2", memT+"Update/order/filterTxs ≺ "+strings.TrimPrefix(g, "mempool.Mempool.")+" ≺ promoteExecutables", p.Pos(up.Pos()), a != nil && b != nil && cc != nil && notBefore(b, a) && notBefore(cc, b), "rechecks run after committed transactions were filtered and before promotion")
